@@ -128,7 +128,14 @@ package syncer
 //@   loop 0 invariant every_dbi_captured: ghost_loc_pending == 0
 //@   at_call syncer.(*Syncer).readDBI#0 assert raw_application_dbi: !hasPrefix(arg2, "_sync") && arg4
 //@   at_call syncer.NewNativeIterator#0 assert stamps_detection_time: arg3 == tsNano && uint64(arg4) == ghost_curTxn && arg0 == snapshot.CurrentFormatVersion
-//@   at_call lmdb.(*Txn).OpenDBI#1 assert shadow_target: hasPrefix(arg1, "_sync_shadow_") && arg2 == 262144 | (dbiFlags & 8)
+//@   at_call lmdb.(*Txn).OpenDBI#0 assert opens_the_application_dbi: arg1 == dbiName
+//@   after_call lmdb.(*Txn).OpenDBI#0 ghost loc_appDbi := uint64(ret0)
+//@   at_call lmdb.(*Txn).Flags#0 assert flags_of_the_application_dbi: uint64(arg1) == ghost_loc_appDbi
+//@   after_call lmdb.(*Txn).Flags#0 ghost loc_appFlags := uint64(ret0)
+//@   at_call lmdb.(*Txn).OpenDBI#1 assert shadow_target: hasPrefix(arg1, "_sync_shadow_") && len(arg1) == 13 + len(dbiName) && uint64(arg2) == 262144 | (ghost_loc_appFlags & 8)
+//@   after_call lmdb.(*Txn).OpenDBI#1 ghost loc_shadowDbi := uint64(ret0)
+//@   at_call strategy.IterUpdate#0 assert captures_into_the_shadow_dbi: uint64(arg1) == ghost_loc_shadowDbi
+//@   at_call syncer.dupSortHackEncode#0 assert hack_only_for_dupsort: ghost_loc_appFlags & 4 != 0
 //@   ensures all_captured: r0 == nil ==> ghost_loc_pending == 0
 //@   ensures captured: r0 == nil ==> ghost_uncap == 18446744073709551615
 //@   ensures dirty_only_set: ghost_dirty == old(ghost_dirty) || ghost_dirty == 1
